@@ -709,7 +709,7 @@ type c16Case struct {
 
 func (c16) Bounds(tier string) map[string]interface{} {
 	if tier == "thorough" {
-		return map[string]interface{}{"base_tables_depth2_all_chains": 2, "base_tables_depth1": 3}
+		return map[string]interface{}{"base_tables_depth2_and_chains_every_2nd": 2, "base_tables_depth1": 3, "chains_from_3_table_bases_every": 96}
 	}
 	return map[string]interface{}{"base_tables": 2, "depth": 1, "depth2_and_chains_from": "every 24th base schema"}
 }
@@ -726,10 +726,11 @@ func (c16) Cases(tier string, emit func(string, interface{})) {
 	seenState := map[string]bool{}
 	seenEdge := map[string]bool{}
 	if tier == "thorough" {
-		// every base schema of <= 2 tables to depth 2 with all 2-chains, and every base schema of 3 tables
-		// to depth 1 (3 tables to depth 2 are 9.5 million cases, about 5 hours: measured, not affordable)
-		c16Explore(2, 2, 1, 1, seenState, seenEdge, emit)
-		c16Explore(3, 1, 0, 24, seenState, seenEdge, emit)
+		// base schemas of <= 2 tables: depth 1 for all, depth 2 and all 2-chains from every second one; base
+		// schemas of 3 tables to depth 1 with 2-chains from every 96th (3 tables to depth 2 are 9.5 million
+		// cases, about 5 hours: measured, not affordable)
+		c16Explore(2, 1, 2, 2, seenState, seenEdge, emit)
+		c16Explore(3, 1, 0, 96, seenState, seenEdge, emit)
 		return
 	}
 	c16Explore(2, 1, 24, 24, seenState, seenEdge, emit)
